@@ -1233,8 +1233,6 @@ fn read_chrom_tree_block(f: &mut VRead,
                 
                 assert(key_string@ == trim_nul(items[k__ as int].0));
                 
-                assert(chrom_id == items[k__ as int].1 && chrom_size == items[k__ as int].2);
-                
                 assert(bytes.rem() =~= blk.subrange(stride(k__ as int + 1, ks), blk.len() as int));
             }
             chroms.push(ChromInfo {
@@ -1247,6 +1245,8 @@ fn read_chrom_tree_block(f: &mut VRead,
                 let it = items[k__ as int];
                 assert(items.subrange(0, k__ as int + 1) =~= items.subrange(0, k__ as int).push(it));
                 assert(rows_of(items.subrange(0, k__ as int).push(it)) =~= rows_of(items.subrange(0, k__ as int)).push(row_of(it)));
+                
+                assert(chroms@.last().id == it.1 && chroms@.last().length == it.2);
                 
                 assert(chroms@ == chroms_before.push(chroms@.last()) && ci_view(chroms@.last()) == row_of(it));
                 assert(infos(chroms@) =~= infos(chroms_before).push(row_of(it)));
